@@ -492,7 +492,7 @@ pub fn drive_c10(t: &Tier, sink: &mut Sink, stats: &mut Stats) {
         values.extend(all_of_len(n).filter(|v| v.last() != Some(&0)));
     }
     for n in [8usize, 9, 63, 64, 65, 120, 127, 128, 129, 190] {
-        for _ in 0..t.q(2, 6) {
+        for _ in 0..t.q(2, 20) {
             let mut v = random_bits(&mut rng, n);
             if n > 0 {
                 v[n - 1] = 1;
@@ -629,7 +629,7 @@ pub fn session_events(t: &Tier, x: &AnyBv, session: &[(String, u128)], outs: &[O
 
 pub fn drive_c17(t: &Tier, sink: &mut Sink, stats: &mut Stats) {
     let mut rng = Rng::new(t.seed ^ 0xC17);
-    let sessions = t.q(500, 6000);
+    let sessions = t.q(500, 40000);
     for _ in 0..sessions {
         let n = match rng.below(5) {
             0 => rng.below(4),
@@ -830,7 +830,7 @@ pub fn forms_event(t: &Tier, op: &'static str, kx: Kind, xb: &Bits, y: &YSpec, k
 
 pub fn drive_c20(t: &Tier, sink: &mut Sink, stats: &mut Stats) {
     let mut rng = Rng::new(t.seed ^ 0xC20);
-    let xs = pool(t, &mut rng, t.q(129, 257), true, t.q(1, 3));
+    let xs = pool(t, &mut rng, t.q(129, 257), t.quick, t.q(1, 5));
     let ops: [&'static str; 8] = ["add", "sub", "mul", "div", "rem", "and", "or", "xor"];
     let mut rot = 0usize;
     for x in &xs {
@@ -847,7 +847,7 @@ pub fn drive_c20(t: &Tier, sink: &mut Sink, stats: &mut Stats) {
                 let xk: Vec<Kind> = ALL_KINDS.iter().copied().filter(|k| k.admits(x.len())).collect();
                 let yk: Vec<Kind> = ALL_KINDS.iter().copied().filter(|k| k.admits(y.len())).collect();
                 for (i, kx) in xk.iter().enumerate() {
-                    for j in 0..t.q(2, 4) {
+                    for j in 0..t.q(2, 6) {
                         let ky = yk[(rot + i * 3 + j * 5) % yk.len()];
                         let (ev, key) = forms_event(t, op, *kx, x, &YSpec::Bits(y.clone()), Some(ky), &Args::default(), &FORMS6);
                         stats.execs += 6;
